@@ -374,6 +374,7 @@ class C19Session:
         self.injector = None
         self.fault_fired, self.fault_missed = [], 0
         self.aborted_templates = []
+        self.abort_n = []
         self.counts = {"compared": 0, "H1_value": 0, "H1_text": 0, "H1_struct": 0,
                        "H2_pairs": 0, "H3": 0, "H4": 0, "req": 0, "cache_hit_repeat": 0,
                        "after_fault_req": 0, "no_ref": 0}
@@ -576,6 +577,7 @@ class C19Session:
                 mode = self.params.get("abort_mode", "state")
                 n = runtime.count_in_twin(self.injector, mode, lambda: self.do_req(st),
                                           timeout=200)
+                self.abort_n.append(n)
                 if n <= 0:
                     self.fault_missed += 1
                     out = self.do_step(st)
@@ -675,6 +677,7 @@ def execute(job):
         "violations": sess.violations,
         "stats": {"model": sess.model.stats, "counts": sess.counts,
                   "faults_fired": sess.fault_fired, "faults_missed": sess.fault_missed,
+                  "abort_n": sess.abort_n,
                   "latent_states": sum(1 for e in sess.events if "latent" in e),
                   "clock": {"calls": clock.calls, "lo": clock.lo, "hi": clock.hi,
                             "callers": sorted(clock.callers)},
